@@ -879,6 +879,61 @@ theorem C14_binary_strip_field_partial (e : Char → Str) (he : AsciiTransparent
   simp only [Function.comp]
   rw [hcell r hr']
 
+/-- **C14 (strip_field, binary read mode, positional).**  The same without a header. -/
+theorem C14_strip_field_binary_positional (d : Char) (hd : GoodDelim14 d) (eol : Str) (he : Eol eol)
+    (rows : List (List Str)) (hc : NoBreakRows rows) (first : List Str)
+    (rest : List (List Str)) (hrows : dataRows rows = first :: rest)
+    (o : Opts) (hp : StripFieldBin o d) (hm : NoHeaderOpts o) :
+    records (loadCsv o (fileOf false d eol none rows))
+      = .ok ((first :: rest).map (fun r => zipPad (positions first.length) (r.map asciiStrip))) := by
+  obtain ⟨n, hn, hcn', hdec⟩ := noHeader_norm o hm (first.map asciiStrip)
+  unfold fileOf withBom
+  simp only [Bool.false_eq_true, if_false]
+  rw [saveCsv_none,
+    csvb_loadCsv_strip_field o d hd.1 hp eol he rows hc n hn first rest hrows]
+  have hdn : dataNames n (first.map asciiStrip) = positions first.length := by
+    simp [dataNames, hcn']
+  rw [outcome_data o n _ _ hdec (by rw [hdn]; exact nodup_positions _), hdn]
+  simp [List.map_map]
+
+/-- **C14 (binary read mode = encoded text-mode table, strip_field, positional; outside C14-g).**
+The records of `C14_strip_field_positional`, encoded. -/
+theorem C14_binary_strip_field_positional_partial (e : Char → Str) (he : AsciiTransparent e)
+    (d : Char) (hd : GoodDelim14 d) (hda : d.toNat < 128) (eol : Str) (heol : Eol eol)
+    (rows : List (List Str)) (hc : NoBreakRows rows) (first : List Str) (rest : List (List Str))
+    (hrows : dataRows rows = first :: rest)
+    (hedge : ∀ r ∈ rows, ∀ f ∈ r, EdgeAscii f)
+    (o : Opts) (hp : StripFieldBin o d) (hm : NoHeaderOpts o) :
+    records (loadCsv o (encS e (fileOf false d eol none rows)))
+      = .ok ((first :: rest).map (fun r =>
+          zipPad (positions first.length) (r.map (fun f => encS e (pyStrip f))))) := by
+  have hcell : ∀ r ∈ rows, r.map (fun f => encS e (pyStrip f))
+      = (r.map (encS e)).map asciiStrip := by
+    intro r hr
+    rw [List.map_map]
+    apply List.map_congr_left
+    intro f hf
+    simp only [Function.comp]
+    rw [csvb_asciiStrip_encS e he f, ← hedge r hr f hf]
+  rw [C14_encoding_commutes e he d hda eol heol none rows]
+  simp only [Option.map_none]
+  have hrows' : dataRows (encRows e rows) = first.map (encS e) :: encRows e rest := by
+    rw [csvb_dataRows_encRows, hrows]; rfl
+  rw [C14_strip_field_binary_positional d hd eol heol (encRows e rows)
+    (noBreakRows_enc e he rows hc) _ _ hrows' o hp hm]
+  congr 1
+  have hmem : ∀ r ∈ first :: rest, r ∈ rows := by
+    intro r hr
+    rw [← hrows] at hr
+    unfold dataRows at hr
+    exact (List.mem_filter.mp hr).1
+  have : first.map (encS e) :: encRows e rest = (first :: rest).map (List.map (encS e)) := rfl
+  rw [this, List.map_map, List.length_map]
+  apply List.map_congr_left
+  intro r hr
+  simp only [Function.comp]
+  rw [hcell r (hmem r hr)]
+
 private def nbsp : Char := Char.ofNat 0xA0
 private def bC2 : Char := Char.ofNat 0xC2
 private def fsep : Char := Char.ofNat 0x1C
